@@ -666,6 +666,90 @@ fn node_layer(run: &Run) {
     let _ = std::fs::remove_dir_all(&root);
 }
 
+
+/// The node layer on a small store, in the states a burst of unacknowledged puts leaves behind (the recorded finding
+/// `burst-of-unacknowledged-puts`: more records held than the configured capacity). Capacity 3..=5, `cap - 1` records held,
+/// a burst of 2..=4 `PutLocalRecord` of new nearer keys handled before any of their write acknowledgements, then
+/// everything settles; with no range and with a range leaving the 1..=2 farthest held records outside. The figures in
+/// the *signed quote* must be the true ones whatever the store's fill level: records within the range as listed now,
+/// the configured capacity, the payments received.
+fn node_layer_burst(run: &Run) {
+    use ant_networking::verif_hooks::LocalSwarmCmd;
+    use ant_protocol::messages::{Query, QueryResponse};
+    use ant_protocol::storage::ChunkAddress;
+    let mut cases = 0u64;
+    for cap in 3usize..=5 {
+        for burst in 2usize..=4 {
+            for outside in 0usize..=2 {
+                let root = fresh_scratch("c10-burst");
+                let stub = std::sync::Arc::new(crate::evm_stub::EvmStub::start());
+                let mut rig = crate::node_rig::NodeRig::new(1, &root, stub);
+                let peer = rig.d.peer_id();
+                let me = NetworkAddress::from_peer(peer).as_bytes();
+                rig.set_max_records(cap);
+                let keys = ranked_keys(peer, cap + burst + 2, "c10-burst");
+                let dist = |k: &RecordKey| u256(&xor_distance(&me, k.as_ref()));
+                let val = [&[0x91u8, 1][..], b"burst"].concat();
+                let rec = |k: &RecordKey| libp2p::kad::Record { key: k.clone(), value: val.clone(), publisher: None, expires: None };
+                // ranks 0: asked about; 1..=burst: the burst (nearer than everything held); then cap-1 held records
+                let held0: Vec<RecordKey> = keys[burst + 1..burst + cap].to_vec();
+                for k in &held0 {
+                    let _ = rig.d.handle_local(LocalSwarmCmd::PutLocalRecord { record: rec(k) });
+                    rig.d.settle();
+                }
+                for k in &keys[1..=burst] {
+                    let _ = rig.d.handle_local(LocalSwarmCmd::PutLocalRecord { record: rec(k) });
+                }
+                rig.d.settle();
+                let _ = rig.d.handle_local(LocalSwarmCmd::PaymentReceived);
+                rig.d.settle();
+                let listed: Vec<String> = rig.listed().into_iter().map(|s| s.split(':').next().unwrap_or("").to_string()).collect();
+                let mut held: Vec<&RecordKey> = keys.iter().filter(|k| listed.contains(&hexkey(k))).collect();
+                held.sort_by_key(|k| dist(k));
+                let range = if outside == 0 || held.len() <= outside {
+                    None
+                } else {
+                    let (lo, hi) = (dist(held[held.len() - outside - 1]), dist(held[held.len() - outside]));
+                    Some(lo + (hi - lo) / U256::from(2u8))
+                };
+                if let Some(r) = range {
+                    rig.d.driver.verif_set_responsible_range(r);
+                }
+                let want_close = held.iter().filter(|k| range.map(|r| dist(k) <= r).unwrap_or(true)).count();
+                let desc = serde_json::json!({"engine": "node-layer", "capacity": cap, "held_before": cap - 1, "burst": burst, "listed_after": held.len(), "held_records_outside_the_range": if range.is_some() { outside } else { 0 }});
+                cases += 1;
+                run.case(desc.to_string().as_bytes(), held.len() > cap);
+                let mut x = [0u8; 32];
+                x.copy_from_slice(keys[0].as_ref());
+                let addr = NetworkAddress::from_chunk_address(ChunkAddress::new(xor_name::XorName(x)));
+                let net = rig.d.network.clone();
+                let rewards = ant_evm::RewardsAddress::from([7u8; 20]);
+                let q = Query::GetStoreQuote { key: addr, nonce: None, difficulty: 0 };
+                let got = rig.run_no_io("quote", async move { ant_node::verif_hooks::VerifNode::handle_query(&net, q, rewards).await });
+                match got {
+                    Some(ant_protocol::messages::Response::Query(QueryResponse::GetStoreQuote { quote: Ok(q), .. })) => {
+                        let m = &q.quoting_metrics;
+                        run.outcome(format!("{}/{}", m.close_records_stored, m.max_records).as_bytes());
+                        if m.close_records_stored != want_close {
+                            run.violation("quoting-metrics", "node-layer/signed-quote-after-a-burst", format!("records within the responsible range: quoted {}, held {want_close} ({desc})", m.close_records_stored), desc.clone());
+                        }
+                        if m.max_records != cap {
+                            run.violation("quoting-metrics", "node-layer/signed-quote-after-a-burst", format!("capacity: quoted {}, configured {cap} ({desc})", m.max_records), desc.clone());
+                        }
+                        if m.received_payment_count != 1 {
+                            run.violation("quoting-metrics", "node-layer/signed-quote-after-a-burst", format!("payments received: quoted {}, received 1 ({desc})", m.received_payment_count), desc.clone());
+                        }
+                    }
+                    other => run.violation("quoting-metrics", "node-layer/no-quote", format!("asked for a quote for a record the node does not hold, got {:?} ({desc})", other.map(|o| format!("{o:?}").chars().take(120).collect::<String>())), desc.clone()),
+                }
+                drop(rig);
+                let _ = std::fs::remove_dir_all(&root);
+            }
+        }
+    }
+    run.extra("node_layer_burst_cases", serde_json::json!(cases));
+}
+
 pub fn main(tier: Option<&str>) {
     let run = Run::new("C10", "model_checking", tier);
     run.rule(
@@ -676,7 +760,8 @@ pub fn main(tier: Option<&str>) {
          5 ranges (+ no range) checked for exact clean-up and exact close-record count. Third part (node layer): a real Node over a real \
          SwarmDriver holding 1640 records at capacity with a range leaving 40 outside and 3 payments: the signed figures, signature and address of \
          the quote it answers GetStoreQuote with (before and after an admitted put and the clean-up), a refused and an admitted PutLocalRecord, \
-         TriggerIrrelevantRecordCleanup, each judged on the node's listed records.",
+         TriggerIrrelevantRecordCleanup, each judged on the node's listed records; and the signed quote of small nodes (capacity 3..=5) after a burst of 2..=4 unacknowledged puts \
+         has left them above capacity, with no range and with 1..=2 held records outside it.",
     );
     run.assume("ranges are placed strictly between key distances: behaviour at distance == range is not probed");
     run.assume("payment count after a restart is judged only when no metrics flush was pending at the restart");
@@ -695,5 +780,6 @@ pub fn main(tier: Option<&str>) {
     }
     cleanup_threshold(&run);
     node_layer(&run);
+    node_layer_burst(&run);
     run.finish();
 }
